@@ -78,6 +78,7 @@ package router
 //@   requires q != nil && rc != nil
 //@   modifies rc.Response.Msg
 //@   ensures rc.Response.Msg != nil && fresh(rc.Response.Msg) && wfMsg(rc.Response.Msg)
+//@   ensures rc.Response.Msg.Additionals == nil || fresh(rc.Response.Msg.Additionals)
 //@   ensures [C10:rcode] rc.Response.Msg.RCode == dnsmsg.RCode(rcode)
 //@   ensures [C03:one-question] len(rc.Response.Msg.Questions) == 1
 //@             && rc.Response.Msg.Questions[0].Type == q.Type && rc.Response.Msg.Questions[0].Class == q.Class
@@ -109,7 +110,7 @@ package router
 //@   trusted
 //@   requires c != nil && q != nil && rc != nil
 //@   modifies rc.Response.IpMark
-//@   ensures m != nil ==> fresh(m) && wfMsg(m) && noOPT(m.Additionals)
+//@   ensures m != nil ==> fresh(m) && wfMsg(m) && noOPT(m.Additionals) && (m.Additionals == nil || fresh(m.Additionals)) && len(m.Questions) <= 65535 && len(m.Answers) <= 65535 && len(m.Authorities) <= 65535 && len(m.Additionals) <= 65535
 //@ func (c *cacheCtl) Store(q *dnsmsg.Question, clientAddr netip.Addr, resp *dnsmsg.Msg)
 //@   trusted
 //@   requires c != nil && q != nil
@@ -118,7 +119,7 @@ package router
 //@   trusted
 //@   requires r != nil && upstream != nil && q != nil
 //@   modifies nothing
-//@   ensures err == nil ==> resp != nil && fresh(resp) && wfMsg(resp) && noOPT(resp.Additionals)
+//@   ensures err == nil ==> resp != nil && fresh(resp) && wfMsg(resp) && noOPT(resp.Additionals) && (resp.Additionals == nil || fresh(resp.Additionals)) && len(resp.Questions) <= 65535 && len(resp.Answers) <= 65535 && len(resp.Authorities) <= 65535 && len(resp.Additionals) <= 65535
 //@   ensures err != nil ==> resp == nil
 
 //@ func (r *router) handleReq(ctx context.Context, q *dnsmsg.Question, rc *RequestContext)
@@ -128,6 +129,8 @@ package router
 //@   modifies rc.Response.Msg, rc.Response.RuleIdx, rc.Response.Cached, rc.Response.IpMark
 //@   ensures rc.Response.Msg != nil && fresh(rc.Response.Msg) && wfMsg(rc.Response.Msg)
 //@   ensures [C12:no-upstream-opt] noOPT(rc.Response.Msg.Additionals)
+//@   ensures rc.Response.Msg.Additionals == nil || fresh(rc.Response.Msg.Additionals)
+//@   ensures len(rc.Response.Msg.Questions) <= 65535 && len(rc.Response.Msg.Answers) <= 65535 && len(rc.Response.Msg.Authorities) <= 65535 && len(rc.Response.Msg.Additionals) <= 65535
 //@   ensures [C10:first-match] !noRuleApplies(r, q.Name) ==> firstApplies(r, q.Name, rc.Response.RuleIdx)
 //@   ensures [C10:no-rule-refused] noRuleApplies(r, q.Name) ==> rc.Response.Msg.RCode == dnsmsg.RCodeRefused && emptyResp(rc.Response.Msg)
 //@   ensures [C10:reject] !noRuleApplies(r, q.Name) && r.rules[rc.Response.RuleIdx].reject > 0 ==>
@@ -148,8 +151,9 @@ package router
 //@   props C03 C10 C12
 //@   requires r != nil && m != nil && rc != nil && wfMsg(m) && r.cache != nil && forall(k, 0, len(r.rules), r.rules[k] != nil)
 //@   requires r.queryCacheHitTotal != nil && r.logger != nil
-//@   modifies *
+//@   modifies rc.Response.Msg, rc.Response.RuleIdx, rc.Response.Cached, rc.Response.IpMark
 //@   ensures rc.Response.Msg != nil && wfMsg(rc.Response.Msg)
+//@   ensures [C09:packable] optSmall(rc.Response.Msg) && smallMsg(rc.Response.Msg)
 //@   ensures [C03:header] rc.Response.Msg.ID == old(m.ID) && rc.Response.Msg.Response && rc.Response.Msg.OpCode == old(m.OpCode)
 //@             && rc.Response.Msg.RecursionAvailable && rc.Response.Msg.RecursionDesired == old(m.RecursionDesired)
 //@   ensures [C03:notimp] old(unsupported(m)) ==> rc.Response.Msg.RCode == dnsmsg.RCodeNotImplemented && emptyResp(rc.Response.Msg)
@@ -189,6 +193,7 @@ package router
 //@   requires resp == nil || (wfMsg(resp) && smallMsg(resp))
 //@   modifies *
 //@   ensures [C03:always-a-response] b != nil && len(b) >= (tcp ? 14 : 12)
+//@   ensures [C09:limit] !tcp && size >= 512 && (resp == nil || old(optSmall(resp))) ==> len(b) <= (size > 65535 ? 65535 : size)
 //@   ensures [C13:framed] tcp && (resp == nil || old(optSmall(resp))) ==> BE16(b, 0) == uint16(len(b) - 2) && len(b) - 2 <= 65535
 
 //@ func (r *router) handleServerReq(m *dnsmsg.Msg, rc *RequestContext)
@@ -196,4 +201,40 @@ package router
 //@   requires r != nil && m != nil && rc != nil && wfMsg(m) && r.cache != nil && forall(k, 0, len(r.rules), r.rules[k] != nil)
 //@   requires r.queryCacheHitTotal != nil && r.logger != nil && r.queryTotal != nil
 //@   modifies *
-//@   ensures [C03:always-a-response] rc.Response.Msg != nil
+//@   ensures [C03:always-a-response] rc.Response.Msg != nil && wfMsg(rc.Response.Msg)
+//@   ensures [C09:packable] optSmall(rc.Response.Msg) && smallMsg(rc.Response.Msg)
+//@   ensures wfMsg(m) && m.Additionals == old(m.Additionals)
+
+// ---- listeners: one response write per handled request ------------------------------------------------
+
+//@ spec func routerReady(r *router) bool = r != nil && r.cache != nil && forall(k, 0, len(r.rules), r.rules[k] != nil) && r.queryCacheHitTotal != nil && r.logger != nil && r.queryTotal != nil
+// the payload size the client advertised: class of the last OPT record of the query, at least 512
+//@ spec func lastOPTAt(m *dnsmsg.Msg, k int) bool = 0 <= k && k < len(m.Additionals) && isOPT(m.Additionals[k]) && forall(j, k+1, len(m.Additionals), !isOPT(m.Additionals[j]))
+
+//@ func (s *udpServer) writeResp(b []byte, remote netip.AddrPort, oobAddr netip.Addr)
+//@   trusted
+//@   requires s != nil
+//@   modifies nothing
+
+//@ func (s *udpServer) handleReq(m *dnsmsg.Msg, rc *RequestContext, oobAddr netip.Addr)
+//@   props C03 C09
+//@   requires s != nil && routerReady(s.r) && m != nil && rc != nil && wfMsg(m)
+//@   ghost nW int = 0
+//@   oncall writeResp: nW = nW + 1
+//@   modifies *
+//@   ensures [C03:exactly-one-write] nW == 1
+//@   callsite mustHaveRespB: [C09:udp-size-arg] arg3 == false && arg4 >= 512 && noOPT(m.Additionals) ==> arg4 == 512
+//@   callsite mustHaveRespB: [C09:udp-size-arg-opt] forall(k, 0, len(m.Additionals), lastOPTAt(m, k) ==> arg4 == (int(ptrOf(m.Additionals[k], dnsmsg.ResourceHdr).Class) < 512 ? 512 : int(ptrOf(m.Additionals[k], dnsmsg.ResourceHdr).Class)))
+//@   callsite writeResp: [C09:udp-limit] len(arg1) >= 12 && len(arg1) <= clientUdpSize
+//@   loop 1:
+//@     invariant clientUdpSize >= 0 && clientUdpSize <= 65535
+//@     invariant (forall(j, 0, rangeindex+1, !isOPT(m.Additionals[j])) && clientUdpSize == 0) || (exists(k, 0, rangeindex+1, isOPT(m.Additionals[k]) && forall(j, k+1, rangeindex+1, !isOPT(m.Additionals[j])) && clientUdpSize == int(ptrOf(m.Additionals[k], dnsmsg.ResourceHdr).Class)))
+
+//@ func (s *tcpServer) handleReq(c net.Conn, m *dnsmsg.Msg, rc *RequestContext)
+//@   props C03 C13
+//@   requires s != nil && routerReady(s.r) && c != nil && m != nil && rc != nil && wfMsg(m) && s.logger != nil
+//@   ghost nW int = 0
+//@   oncall Write: nW = nW + 1
+//@   modifies *
+//@   ensures [C03:exactly-one-write] nW == 1
+//@   callsite Write: [C13:one-framed-write] len(arg1) >= 14 && len(arg1) - 2 <= 65535 && BE16(arg1, 0) == uint16(len(arg1) - 2)
